@@ -2191,10 +2191,10 @@ class unyt_array(np.ndarray):
         """
         name = getattr(self, "name", None)
         try:
-            return type(self)(np.copy(np.asarray(self)), self.units, name=name)
+            return type(self)(np.asarray(self).copy(order), self.units, name=name)
         except TypeError:
             # subclasses might not take name as a kwarg
-            return type(self)(np.copy(np.asarray(self)), self.units)
+            return type(self)(np.asarray(self).copy(order), self.units)
 
     def __array_finalize__(self, obj):
         self.units = getattr(obj, "units", NULL_UNIT)
